@@ -11,6 +11,7 @@ Statement tree (lists of tuples):
   ("if", [(cond_src, body), ...], else_body)
   ("while", cond_src, body)             ("for", var, count_src, body)
   ("break",) ("continue",) ("pass",)    ("call", fname, [args])   ("callassign", name, fname, [args])
+  ("return", expr_src | None)           ("global", [names])       (helper bodies; "head": statements above the defs)
 Program: {"funcs": [(name, params, body, ret_src)], "pre": [...], "main": [...] or None, "inputs": str}
 """
 from __future__ import annotations
@@ -72,9 +73,15 @@ def render(prog, indent="    ") -> str:
                 out.append(f"{pad}{s[1]}({', '.join(s[2])})\n")
             elif k == "callassign":
                 out.append(f"{pad}{s[1]} = {s[2]}({', '.join(s[3])})\n")
+            elif k == "return":          # inside helper bodies (harness/c01_helpers.py); None = bare `return`
+                out.append(f"{pad}return\n" if s[1] is None else f"{pad}return {s[1]}\n")
+            elif k == "global":
+                out.append(f"{pad}global {', '.join(s[1])}\n")
             else:
                 raise ValueError(k)
 
+    if prog.get("head"):                 # statements above the function definitions (globals a helper updates)
+        block(prog["head"], 0)
     for name, params, body, ret in prog.get("funcs", []):
         out.append(f"def {name}({', '.join(params)}):\n")
         block(body, 1)
